@@ -37,6 +37,12 @@ claim("C11", "other",
       "Trusted: MIR CFG, the finalized-test recogniser (is_finalized() call or read of a `finalized` field), infeasible-edge pruning restricted to is_err/is_ok/is_some/is_none correlations on single-definition locals.",
       "guard-dominance and must-pass-through rules on MIR CFGs (custom rustc_private lint)")
 
+claim("C04", "other",
+      "Decides the structural content of mask freshness for every program at once, because it is decided on the compiler's own code: per Operation variant (all 54, by abstract interpretation of the dispatchers) constant folding and de-duplication cannot apply to input/PRF/randomizing operations (C04.F, C04.D); uniquify_prf_id is a strict counter and passes the renumbered operation for PRF variants and the unchanged one otherwise (C04.U); the pipeline runs instantiate -> inline -> uniquify and nothing duplicating afterwards (C04.P); the is_randomizing table equals the set of evaluator arms that use the PRNG (C04.R); optimizer/inline never construct random operations (C04.C); the dangling pass only skips non-input nodes that the output does not need (C04.X). Counter distinctness in a concrete compiled graph is NOT observed; it follows from these clauses.",
+      "DESIGN.md section 3, C04",
+      "Trusted: the abstract interpreter (sparse conditional constant propagation over MIR with enum-variant tags; unknown calls are TOP), MIR construction, callee resolution.",
+      "variant-conditioned abstract interpretation + dominance/value-flow rules on MIR (custom rustc_private lint)")
+
 ALL = ["C%02d" % i for i in range(1, 21)]
 
 def main():
